@@ -225,6 +225,11 @@ func checkCacheStructure(r *Run, p *packages.Package, lm *LockModel) {
 								}
 							}
 						}
+						if guarded == "" && offByOne == "" {
+							// the guard may be written with a named condition or a predicate method, and it may stand in the
+							// callers of a private helper that does the insertion
+							guarded, offByOne = capacityGuardFor(p, lm, removesOnAllPaths, m.Decl, s, 0)
+						}
 						if guarded != "" {
 							r.Pass("C16-R3-bounded", construct, s.Pos(), "%s", guarded)
 						} else if offByOne != "" {
@@ -793,6 +798,10 @@ func checkCounterWriters(r *Run, p *packages.Package) {
 				if !counters[fv] {
 					return true
 				}
+				// counters of a Stats value this function has just built with fresh counters are not shared with any cache
+				if id, ok := ast.Unparen(fsel.X).(*ast.Ident); ok && freshStatsLocal(p, fd, info.Uses[id], counters) {
+					return true
+				}
 				n++
 				where := funcDeclName(fd)
 				construct := where + ":" + fv.Name() + "." + sel.Sel.Name
@@ -815,4 +824,225 @@ func checkCounterWriters(r *Run, p *packages.Package) {
 	if n < 4 {
 		r.Undecide("C16-R4: expected the four event methods to write the counters, found %d writes", n)
 	}
+}
+
+// capacityGuardFor: a capacity test that every execution of target (a statement of decl) has passed — an enclosing
+// condition that admits only below capacity, the negation of an at-capacity condition, or an earlier sibling
+// `if <at capacity> { evict }`. Conditions are read through a local that names them and through a predicate method whose
+// body is one return. When decl is a private method and has no guard of its own, every call of it from the type's other
+// methods must be guarded the same way (depth 2).
+func capacityGuardFor(p *packages.Package, lm *LockModel, evicts map[string]bool, decl *ast.FuncDecl, target ast.Node, depth int) (guarded, offByOne string) {
+	info := p.TypesInfo
+	fset := p.Fset
+	normalise := func(c ast.Expr) ast.Expr {
+		c = resolveLocalCopy(info, decl.Body, c)
+		if call, ok := ast.Unparen(c).(*ast.CallExpr); ok {
+			if fn := calleeOf(info, call); fn != nil && fn.Pkg() == p.Types {
+				if hd := FuncDecls(p)[declKeyOf(fn.Origin())]; hd != nil && hd.Body != nil && len(hd.Body.List) == 1 {
+					if rs, ok := hd.Body.List[0].(*ast.ReturnStmt); ok && len(rs.Results) == 1 {
+						return rs.Results[0]
+					}
+				}
+			}
+		}
+		return c
+	}
+	for _, l := range controlConds(decl.Body, target) {
+		c := normalise(l.Expr)
+		if !mentionsField(info, c, "Capacity") {
+			continue
+		}
+		if capacityCompare(info, c, !l.Neg) {
+			if l.Neg {
+				guarded = "reached only when `" + exprString(fset, c) + "` is false"
+			} else {
+				guarded = "enclosing condition " + exprString(fset, c)
+			}
+		} else {
+			offByOne = exprString(fset, c)
+		}
+	}
+	// earlier sibling `if atCapacity { evict }` of the target or of one of its ancestors
+	var stack []ast.Node
+	found := false
+	ast.Inspect(decl.Body, func(n ast.Node) bool {
+		if found {
+			return false
+		}
+		if n == nil {
+			stack = stack[:len(stack)-1]
+			return true
+		}
+		stack = append(stack, n)
+		if n != target {
+			return true
+		}
+		found = true
+		for i := len(stack) - 1; i > 0; i-- {
+			var list []ast.Stmt
+			switch b := stack[i-1].(type) {
+			case *ast.BlockStmt:
+				list = b.List
+			case *ast.CaseClause:
+				list = b.Body
+			default:
+				continue
+			}
+			for _, prev := range list {
+				if prev == stack[i] {
+					break
+				}
+				ifs, ok := prev.(*ast.IfStmt)
+				if !ok {
+					continue
+				}
+				c := normalise(ifs.Cond)
+				if !mentionsField(info, c, "Capacity") {
+					continue
+				}
+				ev := false
+				ast.Inspect(ifs.Body, func(x ast.Node) bool {
+					if call, ok := x.(*ast.CallExpr); ok {
+						if callee := calleeOf(info, call); callee != nil && evicts[callee.Name()] {
+							ev = true
+						}
+					}
+					return true
+				})
+				if ev && capacityCompare(info, c, false) {
+					guarded = "preceded by `if " + exprString(fset, c) + " { evict }`"
+				} else if ev {
+					offByOne = exprString(fset, c)
+				}
+			}
+		}
+		return false
+	})
+	if guarded != "" || offByOne != "" || depth >= 2 {
+		return guarded, offByOne
+	}
+	// a private helper: look at its callers among the type's methods and the package's functions
+	self, _ := info.Defs[decl.Name].(*types.Func)
+	if self == nil || self.Exported() {
+		return "", ""
+	}
+	calls, all := 0, true
+	via := ""
+	for _, f := range p.Syntax {
+		for _, d := range f.Decls {
+			cd, ok := d.(*ast.FuncDecl)
+			if !ok || cd.Body == nil || cd == decl {
+				continue
+			}
+			ast.Inspect(cd.Body, func(n ast.Node) bool {
+				call, ok := n.(*ast.CallExpr)
+				if !ok {
+					return true
+				}
+				if fn := calleeOf(info, call); fn == nil || fn.Origin() != self {
+					return true
+				}
+				calls++
+				g, o := capacityGuardFor(p, lm, evicts, cd, call, depth+1)
+				if g == "" {
+					all = false
+					if o != "" {
+						offByOne = o
+					}
+				} else {
+					via = g + " in " + funcDeclName(cd)
+				}
+				return true
+			})
+		}
+	}
+	if calls > 0 && all {
+		return via, ""
+	}
+	return "", offByOne
+}
+
+// freshStatsLocal: obj is a local of fd that is defined exactly once, by a Stats literal whose counter fields are all
+// freshly allocated (`&atomic.Int64{}` / new(...)), or by a call of a same-package function whose whole body returns
+// such a literal.
+func freshStatsLocal(p *packages.Package, fd *ast.FuncDecl, obj types.Object, counters map[*types.Var]bool) bool {
+	if obj == nil {
+		return false
+	}
+	info := p.TypesInfo
+	freshLit := func(e ast.Expr) bool {
+		cl, ok := ast.Unparen(e).(*ast.CompositeLit)
+		if !ok {
+			return false
+		}
+		set := 0
+		for _, el := range cl.Elts {
+			kv, ok := el.(*ast.KeyValueExpr)
+			if !ok {
+				return false
+			}
+			k, ok := kv.Key.(*ast.Ident)
+			if !ok {
+				return false
+			}
+			fv, _ := info.Uses[k].(*types.Var)
+			if !counters[fv] {
+				continue
+			}
+			switch v := ast.Unparen(kv.Value).(type) {
+			case *ast.UnaryExpr:
+				if _, isLit := ast.Unparen(v.X).(*ast.CompositeLit); v.Op != token.AND || !isLit {
+					return false
+				}
+			case *ast.CallExpr:
+				if id, ok := v.Fun.(*ast.Ident); !ok || id.Name != "new" {
+					return false
+				}
+			default:
+				return false
+			}
+			set++
+		}
+		return set == len(counters)
+	}
+	fresh := func(e ast.Expr) bool {
+		if freshLit(e) {
+			return true
+		}
+		if call, ok := ast.Unparen(e).(*ast.CallExpr); ok {
+			if fn := calleeOf(info, call); fn != nil && fn.Pkg() == p.Types {
+				if hd := FuncDecls(p)[declKeyOf(fn.Origin())]; hd != nil && hd.Body != nil && len(hd.Body.List) == 1 {
+					if rs, ok := hd.Body.List[0].(*ast.ReturnStmt); ok && len(rs.Results) == 1 {
+						return freshLit(rs.Results[0])
+					}
+				}
+			}
+		}
+		return false
+	}
+	defs, ok := 0, true
+	ast.Inspect(fd.Body, func(n ast.Node) bool {
+		switch x := n.(type) {
+		case *ast.AssignStmt:
+			for i, l := range x.Lhs {
+				if id, isID := ast.Unparen(l).(*ast.Ident); isID && (info.Defs[id] == obj || info.Uses[id] == obj) {
+					defs++
+					if len(x.Lhs) != len(x.Rhs) || !fresh(x.Rhs[i]) {
+						ok = false
+					}
+				}
+			}
+		case *ast.ValueSpec:
+			for i, nm := range x.Names {
+				if info.Defs[nm] == obj {
+					defs++
+					if i >= len(x.Values) || !fresh(x.Values[i]) {
+						ok = false
+					}
+				}
+			}
+		}
+		return true
+	})
+	return defs == 1 && ok
 }
